@@ -138,10 +138,17 @@ def hash_errors(root, limit: int = 3, max_nodes: int = 400) -> t.List[str]:
         except Exception as e:  # constructor refuses: not a hash problem
             continue
         if hash(n) != hash(fresh):
-            errs.append(f"stale hash on {type(n).__name__}: {n.sql()[:80]!r}")
+            errs.append(f"stale hash on {type(n).__name__}: {safe_sql(n)!r}")
             if len(errs) >= limit:
                 break
     return errs
+
+
+def safe_sql(n, limit: int = 80) -> str:
+    try:
+        return n.sql()[:limit]
+    except Exception as e:  # structurally incomplete tree after an edit
+        return f"<{type(n).__name__}: {type(e).__name__}>"
 
 
 def node_ids(root) -> set:
